@@ -224,12 +224,13 @@ def load(repo=REPO, target_dir=None):
             with open(tmp, "w") as fh:
                 json.dump(doc, fh)
             os.rename(tmp, path)
-            # keep the cache small: retain the 12 most recent fact files, and never evict one written in the last 20 minutes
-            # (parallel runs over many scratch trees would otherwise evict each other's facts between two checks)
+            # keep the cache bounded: retain the 12 most recent fact files, and never evict one written in the last two hours
+            # unless there are more than 200 (the thorough tier runs each check over ~140 scratch trees; the facts of a
+            # tree are shared by all properties' thorough runs)
             allf = sorted(glob.glob(os.path.join(fdir, "*.json")), key=os.path.getmtime)
             for i, o in enumerate(allf[:-12]):
                 try:
-                    if time.time() - os.path.getmtime(o) > 1200 or len(allf) - i > 48:
+                    if time.time() - os.path.getmtime(o) > 7200 or len(allf) - i > 200:
                         os.unlink(o)
                 except OSError:
                     pass
